@@ -16,6 +16,9 @@ add(Contract("markdown_it.ruler.Ruler.getRules", params={"self": "obj:Ruler", "c
              ensures=[("fallback-enabled", "len(result) >= 1")],
              notes="supported configuration (C01): the fallback rule of the chain stays enabled, so the main chain is never empty"))
 
+# C20: the skip memo never forgets or rewrites an entry (a rule that cleared it would make look-ahead work exponential)
+CACHE_MONO = ("memo-entries-are-kept", "forall(p, 0, len(state.src) + 1, implies(old(p in state.cache), p in state.cache and state.cache[p] == old(state.cache[p])))")
+
 POSR = [("pos-range", "0 <= state.pos and state.pos < state.posMax and state.posMax <= len(state.src)")]
 
 
@@ -44,7 +47,8 @@ add(Contract(
              ("silent-pending", "implies(silent, state.pending == old(state.pending))"),
              ("level", "state.level == old(state.level) and state.posMax == old(state.posMax)"),
              ("cache-inv", "implies(old(forall(p, 0, len(state.src) + 1, implies(p in state.cache, state.cache[p] > p))), "
-                           "forall(p, 0, len(state.src) + 1, implies(p in state.cache, state.cache[p] > p)))")],
+                           "forall(p, 0, len(state.src) + 1, implies(p in state.cache, state.cache[p] > p)))"),
+             CACHE_MONO],
 ))
 add(Contract("<inline_rule2>", params={"state": "obj:StateInline"}, assume_only=True, modifies=[]))
 
@@ -77,16 +81,16 @@ add(Contract(
     PI + "tokenize", params={"self": "obj:ParserInline", "state": "obj:StateInline"}, props=["C01", "C20"],
     requires=[("pos-range", "0 <= state.pos and state.pos <= state.posMax and state.posMax <= len(state.src)"), ("nest", "state.md.options.maxNesting >= 1"), POSMAX_TERM],
     at=[("call:rule", "rule-under-nesting-cap", "state.level < state.md.options.maxNesting")],
-    ensures=[("consumed", "state.pos >= state.posMax")],
+    ensures=[("consumed", "state.pos >= state.posMax"), CACHE_MONO + (["C20"],)],
     loops={0: {"types": {"ok": "bool", "rule": "none"}, "let": {"P": "state.pos"},
                "inv": [("pos-lo", "0 <= state.pos"), ("end", "end == state.posMax and end <= len(state.src)"),
                        ("stale-ok", "state.level < maxNesting or not ok"), ("maxNesting", "maxNesting == state.md.options.maxNesting"),
-                       ("level", "state.level == old(state.level)"), ("rules", "len(rules) >= 1")],
+                       ("level", "state.level == old(state.level)"), ("rules", "len(rules) >= 1"), CACHE_MONO],
                "dec": "end - state.pos"},
            1: {"types": {"rule": "none"},
                "inv": [("pos-same", "state.pos == P"), ("pos-hi", "0 <= P and P < end"), ("end", "end == state.posMax and end <= len(state.src)"),
                        ("nest", "state.level < maxNesting"), ("maxNesting", "maxNesting == state.md.options.maxNesting"), ("not-ok", "_it1 == 0 or not ok"),
-                       ("level", "state.level == old(state.level)")],
+                       ("level", "state.level == old(state.level)"), CACHE_MONO],
                "dec": "len(rules) - _it1"}},
 ))
 
@@ -98,11 +102,11 @@ add(Contract(
     at=[("call:rule", "rule-under-nesting-cap", "state.level - 1 < state.md.options.maxNesting")],
     ensures=[("advance", "state.pos > old(state.pos)"),
              ("level-restored", "state.level == old(state.level) and state.posMax == old(state.posMax) and state.pending == old(state.pending)"),
-             ("cache-inv", "forall(p, 0, len(state.src) + 1, implies(p in state.cache, state.cache[p] > p))"), ("memo", "old(state.pos) in state.cache and state.cache[old(state.pos)] == state.pos"),
+             ("cache-inv", "forall(p, 0, len(state.src) + 1, implies(p in state.cache, state.cache[p] > p))"), ("memo", "old(state.pos) in state.cache and state.cache[old(state.pos)] == state.pos"), CACHE_MONO,
              ("hit-no-work", "implies(old(old(state.pos) in state.cache), state.pos == old(state.cache[state.pos]))")],
     loops={0: {"types": {"rule": "none", "ok": "bool"},
                "inv": [("pos", "state.pos == pos"), ("not-ok", "not ok"), ("range", "0 <= pos and pos < state.posMax and state.posMax <= len(state.src)"),
-                       ("level", "state.level == old(state.level)"), ("cache", "cache == state.cache")],
+                       ("level", "state.level == old(state.level)"), ("cache", "cache == state.cache"), CACHE_MONO, ("miss", "not old(state.pos in state.cache)")],
                "dec": "len(rules) - _it0"}},
 ))
 C09_FUNCS = ["markdown_it.rules_inline.escape.escape"]
